@@ -161,7 +161,8 @@ fn run_case_pre(cmds: &[Cmd], pos: usize, batch_mask: u64, window: u64, extra: C
     w.ds[0].ctl.set_rng_default(0);
     w.poke(0);
     // pre-state: an announced service, a browse with a resolved instance, a hostname resolver
-    w.ds[0].h.register(svc("_t._tcp.local.", "one", "myhost.local.", "10.0.0.5", 80, &[])).unwrap();
+    // (a name with capital letters: the service map is keyed by the lower-case name)
+    w.ds[0].h.register(svc("_t._tcp.local.", "One", "myhost.local.", "10.0.0.5", 80, &[])).unwrap();
     w.poke(0);
     let rx = w.ds[0].h.browse("_t._tcp.local.").unwrap();
     let b0 = w.add_browse(0, rx);
